@@ -123,15 +123,15 @@ Theorem crash_view_old_or_step f d o es k d' : crash_point f d o es k d' ->
 Proof. exact (crash_between f d o es k d'). Qed.
 Print Assumptions crash_view_old_or_step.
 
-(* a command that comes down to at most one action (assignTag, unassignTag, undeclare or remove of a version
-   however many tags point at it, a declaration that assigns no tag): old or new, literally *)
+(* special case kept for its short proof - a command that comes down to at most one action (assignTag, unassignTag,
+   undeclare or remove of a version however many tags point at it, a declaration that assigns no tag): old or new *)
 Theorem crash_view_old_or_new_single_action f d o es k d' acts : crash_point f d o es k d' ->
   decide false (view d) o = Ok acts -> length acts <= 1 ->
   same_or (view d') (view d) (view (apply es d)).
 Proof. exact (crash_single f d o es k d' acts). Qed.
 Print Assumptions crash_view_old_or_new_single_action.
 
-(* every command except declare (undeclare --tag with undeclareVersionAndTag is two actions): old or new *)
+(* special case: every command except declare (undeclare --tag with undeclareVersionAndTag is two actions) *)
 Theorem crash_view_old_or_new_not_declare f d o es k d' : crash_point f d o es k d' -> is_declare o = false ->
   same_or (view d') (view d) (view (apply es d)).
 Proof. exact (crash_not_declare f d o es k d'). Qed.
@@ -144,31 +144,57 @@ Theorem crash_decl_old_or_new f d o es k d' : crash_point f d o es k d' ->
 Proof. exact (crash_decl_old_or_new_gen f d o es k d'). Qed.
 Print Assumptions crash_decl_old_or_new.
 
-(* the literal statement for all commands,
-     forall f d o es k d', crash_point f d o es k d' -> same_or (view d') (view d) (view (apply es d)),
-   is false of the model as it is of the code (finding D20): declare a 2 -t current, when current points at
-   a 1, unassigns and then assigns; killed in between, the tag reads as unassigned *)
-Theorem crash_view_old_or_new_refuted :
-  exists f d o es k d', crash_point f d o es k d' /\
+(* the literal statement, for all commands, declare with a tag move included: every declaration and every tag
+   assignment (per stack, product, tag or version, flavor) reads as its value before the command or as its value
+   after the completed command.  Eups.declare moves a tag by assigning it first (Database.assignTag replaces the
+   flavor's entry of the chain file in one rewrite) and unassigning it in the other stacks of the path afterwards,
+   so no key is written twice with different values.  No hypothesis beyond crash_point. *)
+Theorem crash_view_old_or_new f d o es k d' : crash_point f d o es k d' ->
+  same_or (view d') (view d) (view (apply es d)).
+Proof. exact (crash_old_or_new f d o es k d'). Qed.
+Print Assumptions crash_view_old_or_new.
+
+(* its tag half spelled out: the tag of a product in a stack for a flavor names the old version or the new one
+   (None = not assigned), never anything else - in particular never "unassigned" when it is assigned before and after *)
+Theorem crash_tag_old_or_new f d o es k d' : crash_point f d o es k d' ->
+  forall s n t fl, a_tag (view d') s n t fl = a_tag (view d) s n t fl \/
+                   a_tag (view d') s n t fl = a_tag (view (apply es d)) s n t fl.
+Proof. intros C. exact (proj2 (crash_old_or_new f d o es k d' C)). Qed.
+Print Assumptions crash_tag_old_or_new.
+
+(* the tag move as the tree had it before the repair (finding D20, Db.effects_pinned: unassign every old occurrence,
+   then assign) violates this: declare a 2 -t current, when current points at a 1, killed after the first system
+   call (the removal of current.chain): the tag reads as unassigned, neither a 1 nor a 2.  The store protocol is the
+   repaired write-temporary-then-rename one, so the order of the two record-level effects alone is to blame *)
+Theorem crash_view_old_or_new_refuted_pinned :
+  exists f d o es k d', represents f d /\ op_ok o = true /\ effects_pinned d o = Ok es /\
+    read_db (map fst d) (crash_fs f es k) = Ok d' /\
     exists s n t fl, a_tag (view d') s n t fl <> a_tag (view d) s n t fl /\
                      a_tag (view d') s n t fl <> a_tag (view (apply es d)) s n t fl.
 Proof.
-  exists w_f, w_d, w_move, (op_effects w_d w_move), 1,
-         (read_raw (map fst w_d) (crash_fs w_f (op_effects w_d w_move) 1)).
-  split.
-  - constructor; [apply w_represents|reflexivity|vm_compute; reflexivity|vm_compute; reflexivity].
-  - exists (lit "stack"), (lit "a"), (lit "current"), w_L. split; vm_compute; discriminate.
+  exists w_f, w_d, w_move, (match effects_pinned w_d w_move with Ok es => es | Err _ => [] end), 1,
+         (read_raw (map fst w_d)
+            (crash_fs w_f (match effects_pinned w_d w_move with Ok es => es | Err _ => [] end) 1)).
+  split; [apply w_represents|]. split; [reflexivity|]. split; [vm_compute; reflexivity|].
+  split; [vm_compute; reflexivity|].
+  exists (lit "stack"), (lit "a"), (lit "current"), w_L. split; vm_compute; discriminate.
 Qed.
-Print Assumptions crash_view_old_or_new_refuted.
+Print Assumptions crash_view_old_or_new_refuted_pinned.
 
-(* what does hold for every command, declare with a tag move included: a tag assignment reads as its old
-   value, its new value, or unassigned (the unassign-then-assign window of D20), never as a third version *)
-Theorem crash_tag_old_new_or_unassigned f d o es k d' : crash_point f d o es k d' ->
-  forall s n t fl, a_tag (view d') s n t fl = a_tag (view d) s n t fl \/
-                   a_tag (view d') s n t fl = a_tag (view (apply es d)) s n t fl \/
-                   a_tag (view d') s n t fl = None.
-Proof. exact (crash_tag_three f d o es k d'). Qed.
-Print Assumptions crash_tag_old_new_or_unassigned.
+(* the same command on the same state with the repaired order: one file effect (the rewrite of current.chain, four
+   system calls); before the rename the tag names a 1, from the rename on a 2 *)
+Example c08_tag_move_inhabited :
+  let es := op_effects w_d w_move in
+  let seen k := a_tag (view (read_raw (map fst w_d) (crash_fs w_f es k))) (lit "stack") (lit "a") (lit "current") w_L in
+  length es = 1 /\ length (lower_all lower_atomic (images es)) = 5 /\
+  crash_point w_f w_d w_move es 4 (read_raw (map fst w_d) (crash_fs w_f es 4)) /\
+  map seen [0; 1; 2; 3; 4; 5] =
+    [Some (lit "1"); Some (lit "1"); Some (lit "1"); Some (lit "1"); Some (lit "1"); Some (lit "2")].
+Proof.
+  cbv zeta. split; [vm_compute; reflexivity|]. split; [vm_compute; reflexivity|]. split.
+  - constructor; [apply w_represents|reflexivity|vm_compute; reflexivity|vm_compute; reflexivity].
+  - vm_compute. reflexivity.
+Qed.
 
 (* no tag points at an undeclared version at any crash point of any command *)
 Theorem no_dangling_at_every_crash_point f d o es k d' : crash_point f d o es k d' ->
